@@ -7,10 +7,13 @@ CONSTANTS
   ScoreNone = TRUE
   HeapTakeover = 0
   MaxCalls = 0
-  NTerms = 3
-  Family = "disj"
+  NTerms = 2
+  Family = "disj2"
   DropK1 = FALSE
   Queries <- MCQueries
+  FixEmptySnapshot = FALSE
+  FixBoolAdvance = FALSE
+  FixShouldMin = FALSE
   FirstAdvanceOK <- FirstAdvNoQ2
 VIEW View
 INVARIANT EnumIsHits
